@@ -909,6 +909,18 @@ def ring_models(extra=None):
         return TOP
     m.on(by(None, ("map", "and_then"), "core::option::Option"), opt_map)
 
+    def opt_map_or(ex, st, fr, t, args):
+        v = args[0]
+        n = t["f"].get("name")
+        if isinstance(v, Obj) and v.variant == "None":
+            return args[1] if n in ("map_or", "unwrap_or") else TOP
+        if isinstance(v, Obj) and v.variant == "Some":
+            if n == "unwrap_or":
+                return v.fields.get(0, TOP)
+            return ex.call_closure(st, args[2], [v.fields.get(0, TOP)])
+        return TOP
+    m.on(by(None, ("map_or", "unwrap_or"), "core::option::Option"), opt_map_or)
+
     def from_int(ex, st, fr, t, args):
         if len(args) == 1 and isinstance(args[0], int) and not isinstance(args[0], bool):
             return Q.const(args[0])
